@@ -129,7 +129,7 @@ def run_case(ck, desc):
             other.gas_FVF(p, Tpc + 40.0, ppc + 25.0)
             other.gas_viscosity(p, Tpc + 40.0, ppc + 25.0)
         ck.count("facade_calls_after_another_fluid_was_used")
-        if int(desc["Sw"] * 1000) % 7 == 0:
+        if int(desc["Sw"] * 1000) % 14 == 0:
             # four Fluid objects used from four threads at once: each answer belongs to its own object
             import functools
 
